@@ -687,6 +687,28 @@ func runSynthetic(sc *bw.Scenario, log *simkit.Log, out *simkit.Outcome) {
 		if err == nil {
 			checkOpened(b, dir, out, "synthetic manifest")
 			checkReverseOnDisk(b, dir, out, "synthetic manifest")
+			// what a manifest means is a function of its bytes: opened again and again it answers alike
+			regAnswers := func(b *sourcebundle.Bundle) string {
+				var ls []string
+				for _, rp := range b.RegistryPackages() {
+					for _, v := range b.RegistryPackageVersions(rp) {
+						src, ok := b.RegistryPackageSourceAddr(rp, v)
+						dep := b.RegistryPackageVersionDeprecation(rp, v)
+						ls = append(ls, fmt.Sprintf("%s@%s => %s %v dep=%v", rp, v, src, ok, dep != nil))
+					}
+				}
+				return strings.Join(ls, " ; ")
+			}
+			first := regAnswers(b)
+			for k := 0; k < 8; k++ {
+				if bk, err := sourcebundle.OpenDir(dir); err != nil {
+					out.Violate("C18", "open-unstable", "refused-later", fmt.Sprintf("the same manifest, opened again, is refused: %v", err))
+					break
+				} else if again := regAnswers(bk); again != first {
+					out.Violate("C18", "open-unstable", "registry-answers", fmt.Sprintf("the same manifest, opened again, answers differently: %q then %q", first, again))
+					break
+				}
+			}
 		} else {
 			out.Probe("hostile-manifest-refused")
 		}
